@@ -1755,7 +1755,8 @@ class IRGenerator:
                 route_data_types.append(data_type)
 
         # Recurse on dependencies
-        output_types_by_ns, output_routes_by_ns = self._find_dependencies(route_data_types)
+        output_types_by_ns, output_routes_by_ns, output_aliases = \
+            self._find_dependencies(route_data_types)
 
         # Update the IR representation. This involves editing the data types and
         # routes for each namespace.
@@ -1763,6 +1764,11 @@ class IRGenerator:
             data_types = list(set(output_types_by_ns[namespace.name]))  # defaults to empty list
             namespace.data_types = data_types
             namespace.data_type_by_name = {d.name: d for d in data_types}
+            # An alias that nothing retained depends on goes away with its
+            # target; keeping it would leave a reference to a removed type.
+            namespace.aliases = [alias for alias in namespace.aliases
+                                 if alias in output_aliases]
+            namespace.alias_by_name = {a.name: a for a in namespace.aliases}
 
             output_route_reprs = [output_route.name_with_version()
                                   for output_route in output_routes_by_ns[namespace.name]]
@@ -1791,7 +1797,8 @@ class IRGenerator:
         seen = set()
         for t in data_types:
             self._find_dependencies_recursive(t, seen, output_types, output_routes)
-        return output_types, output_routes
+        output_aliases = {t for t in seen if is_alias(t)}
+        return output_types, output_routes, output_aliases
 
     def _find_dependencies_recursive(self, data_type, seen, output_types,
                                      output_routes, type_context=None):
